@@ -480,3 +480,299 @@ Lemma party_only_mappings :
   (forall m, In m (w_maps (res_world r)) -> ~ In m (w_maps w) -> partyP a m) /\
   (forall i, In i (res_dm r) -> exists m, In m (w_maps (res_world r)) /\ m_id m = i /\ partyP a m).
 Proof. exact (party_only_mappings_gen current_table current_table_sound). Qed.
+
+(* ------------------------------------------------------------------------------------------ *)
+(* (3b) codes and HTTP domains                                                                *)
+(* ------------------------------------------------------------------------------------------ *)
+Definition objects_ok (a : cid) (w : world) (r : result) : Prop :=
+  (forall d, In d (w_doms w) -> ~ In d (w_doms (res_world r)) -> d_owner d = a) /\
+  (forall d, In d (w_doms (res_world r)) -> ~ In d (w_doms w) -> d_owner d = a /\ a <> 0) /\
+  (forall i, In i (res_dd r) -> exists d, In d (w_doms (res_world r)) /\ d_id d = i /\ d_owner d = a) /\
+  (forall x, In x (w_codes (res_world r)) -> ~ In x (w_codes w) -> a <> 0 /\ (c_owner x = a \/ c_act x = a)) /\
+  (forall i, In i (res_dc r) -> exists x, In x (w_codes (res_world r)) /\ c_id x = i /\ c_owner x = a).
+
+Lemma objects_ok_mk a b w : objects_ok a w (mk b w).
+Proof. unfold objects_ok, mk; cbn. repeat split; intros; try contradiction; tauto. Qed.
+
+Lemma objects_ok_same a w r :
+  w_doms (res_world r) = w_doms w -> w_codes (res_world r) = w_codes w -> res_dd r = [] -> res_dc r = [] -> objects_ok a w r.
+Proof.
+  intros H1 H2 H3 H4. unfold objects_ok. rewrite H1, H2, H3, H4. repeat split; intros; try contradiction; cbn in *; tauto.
+Qed.
+
+Lemma party_only_objects_gen tbl :
+  sound_table tbl = true ->
+  forall w k cl c, objects_ok (conn_identity w k) w (exec tbl w k cl c).
+Proof.
+  intros Hs w k cl c. set (a := conn_identity w k).
+  destruct (exec_cases tbl w k cl c) as [|r F A Z|r F A].
+  - apply objects_ok_mk.
+  - destruct (refuse_is_mk (r_eff r) w k) as [b ->]. apply objects_ok_mk.
+  - pose proof (sound_row_of _ _ _ _ Hs F) as Hr.
+    destruct (stateless (r_eff r)) eqn:S.
+    { destruct (run_stateless (r_eff r) (r_party r) (acting r w k cl) w k c S) as [b ->]. apply objects_ok_mk. }
+    pose proof (sound_gate r w k cl Hr A) as G.
+    rewrite (sound_acting r w k cl Hr S). fold a. fold a in G.
+    destruct (r_eff r) eqn:E; cbn [stateless] in S; try discriminate S; cbn [run].
+    + (* EMapList *) apply objects_ok_same; reflexivity.
+    + (* EMapGet *)
+      destruct (k_obj c) as [i|]; [|apply objects_ok_mk].
+      destruct (find_map i (w_maps w)) as [m|]; [|apply objects_ok_mk].
+      destruct (map_party_ok (r_party r) a m); [|apply objects_ok_mk]. apply objects_ok_same; reflexivity.
+    + (* EMapDelete *)
+      destruct (k_obj c) as [i|]; [|apply objects_ok_mk].
+      destruct (find_map i (w_maps w)) as [m|]; [|apply objects_ok_mk].
+      destruct (map_party_ok (r_party r) a m); [|apply objects_ok_mk]. apply objects_ok_same; reflexivity.
+    + (* ECodeGen *)
+      destruct (k_valid c); [|apply objects_ok_mk].
+      unfold objects_ok; cbn. split; [tauto|]. split; [tauto|]. split; [intros i []|]. split.
+      * intros x Hin Hnot. rewrite (in_app_new _ _ _ Hin Hnot). cbn. split; [exact G|now left].
+      * intros i [<-|[]]. eexists. split; [apply in_or_app; right; left; reflexivity|]. split; reflexivity.
+    + (* ECodeList *)
+      unfold objects_ok; cbn. split; [tauto|]. split; [tauto|]. split; [intros i []|]. split; [tauto|].
+      intros i Hi. apply in_map_filter in Hi. destruct Hi as [x [Hin [Hid Hsel]]]. apply N.eqb_eq in Hsel. exists x. auto.
+    + (* ECodeActivate *)
+      destruct (k_obj c) as [i|]; [|apply objects_ok_mk].
+      destruct (negb (k_valid c)); [apply objects_ok_mk|].
+      destruct (find_code i (w_codes w)) as [x|] eqn:Fc; [|apply objects_ok_mk].
+      destruct (negb (c_act x =? 0)); [apply objects_ok_mk|].
+      unfold objects_ok; cbn. split; [tauto|]. split; [tauto|]. split; [intros j []|]. split; [|intros j []].
+      intros y Hin Hnot. destruct (update_code_new _ _ _ _ Hin Hnot) as [x0 [_ ->]]. cbn. split; [exact G|now right].
+    + (* EConfigGet *) apply objects_ok_same; reflexivity.
+    + (* ETraffic *)
+      destruct (k_obj c) as [i|]; [|apply objects_ok_mk].
+      destruct (find_map i (w_maps w)) as [m|]; [|apply objects_ok_mk].
+      destruct (map_party_ok (r_party r) a m); [|apply objects_ok_mk]. apply objects_ok_same; reflexivity.
+    + (* ESocksOpen *)
+      destruct (k_obj c) as [i|]; [|apply objects_ok_mk].
+      destruct (find_map i (w_maps w)) as [m|]; [|apply objects_ok_mk].
+      destruct (map_party_ok (r_party r) a m); [|apply objects_ok_mk].
+      destruct (memN (m_target m) (w_online w)); [|apply objects_ok_mk]. apply objects_ok_same; reflexivity.
+    + (* EDnsForward *)
+      match goal with |- context [if ?b then _ else _] => destruct b end; [|apply objects_ok_mk].
+      apply objects_ok_same; reflexivity.
+    + (* ENotify *)
+      destruct (k_tgt c) as [t|]; [|apply objects_ok_mk].
+      match goal with |- context [if ?b then _ else _] => destruct b end; [apply objects_ok_mk|].
+      apply objects_ok_same; reflexivity.
+    + (* EDomCreate *)
+      destruct (k_valid c); [|apply objects_ok_mk].
+      unfold objects_ok; cbn. split.
+      * intros d Hin Hnot. exfalso. apply Hnot. apply in_or_app. now left.
+      * split; [|split; [|split; [tauto|intros i []]]].
+        -- intros d Hin Hnot. rewrite (in_app_new _ _ _ Hin Hnot). cbn. split; [reflexivity|exact G].
+        -- intros i [<-|[]]. eexists. split; [apply in_or_app; right; left; reflexivity|]. split; reflexivity.
+    + (* EDomDelete *)
+      destruct (k_obj c) as [i|]; [|apply objects_ok_mk].
+      destruct (find_dom i (w_doms w)) as [d|] eqn:Fd; [|apply objects_ok_mk].
+      destruct (d_owner d =? a) eqn:Eo; [|apply objects_ok_mk]. apply N.eqb_eq in Eo.
+      unfold objects_ok; cbn. split.
+      * intros d' Hin Hnot. rewrite (remove_dom_lost _ _ _ Hin Hnot) in Fd. injection Fd as ->. exact Eo.
+      * split; [|split; [intros j []|split; [tauto|intros j []]]].
+        intros d' Hin Hnot. exfalso. apply Hnot. eapply remove_dom_sub; eauto.
+    + (* EDomList *)
+      unfold objects_ok; cbn. split; [tauto|]. split; [tauto|]. split; [|split; [tauto|intros i []]].
+      intros i Hi. apply in_map_filter in Hi. destruct Hi as [d [Hin [Hid Hsel]]]. apply N.eqb_eq in Hsel. exists d. auto.
+    + (* EDisconnect *) apply objects_ok_same; reflexivity.
+Qed.
+
+Lemma party_only_objects :
+  forall w k cl c, objects_ok (conn_identity w k) w (exec current_table w k cl c).
+Proof. exact (party_only_objects_gen current_table current_table_sound). Qed.
+
+(* ------------------------------------------------------------------------------------------ *)
+(* (3c) reaching another client, and who can be disconnected                                  *)
+(* ------------------------------------------------------------------------------------------ *)
+Definition reach_ok (a : cid) (w : world) (r : result) : Prop :=
+  (forall t ty s, In (t, ty, s) (res_deliv r) ->
+     a <> 0 /\ t <> a /\ ((ty = C_NotifyClient /\ s = a) \/ exists m, In m (w_maps w) /\ m_listen m = a /\ m_target m = t)) /\
+  (forall x, In x (w_online w) -> ~ In x (w_online (res_world r)) -> x = a).
+
+Lemma reach_ok_mk a b w : reach_ok a w (mk b w).
+Proof. unfold reach_ok, mk; cbn. split; intros; contradiction. Qed.
+
+Lemma reach_ok_quiet a w r : res_deliv r = [] -> w_online (res_world r) = w_online w -> reach_ok a w r.
+Proof. intros H1 H2. unfold reach_ok. rewrite H1, H2. split; intros; cbn in *; contradiction. Qed.
+
+Lemma deliver_in self t ty s x : In x (deliver self t ty s) -> x = (t, ty, s) /\ t <> self.
+Proof.
+  unfold deliver. destruct (t =? self) eqn:E; cbn [In]; [tauto|]. intros [<-|[]]. split; [reflexivity|now apply N.eqb_neq].
+Qed.
+
+Lemma reaches_exists a t l : reaches a t l = true -> exists m, In m l /\ m_listen m = a /\ m_target m = t.
+Proof.
+  unfold reaches. intro H. apply andb_prop in H. destruct H as [_ H]. apply existsb_exists in H.
+  destruct H as [m [Hin Hm]]. apply andb_prop in Hm. destruct Hm as [H1 H2]. apply N.eqb_eq in H1, H2. exists m. auto.
+Qed.
+
+Lemma reach_only_gen tbl :
+  sound_table tbl = true ->
+  forall w k cl c, reach_ok (conn_identity w k) w (exec tbl w k cl c).
+Proof.
+  intros Hs w k cl c. set (a := conn_identity w k).
+  destruct (exec_cases tbl w k cl c) as [|r F A Z|r F A].
+  - apply reach_ok_mk.
+  - destruct (refuse_is_mk (r_eff r) w k) as [b ->]. apply reach_ok_mk.
+  - pose proof (sound_row_of _ _ _ _ Hs F) as Hr.
+    destruct (stateless (r_eff r)) eqn:S.
+    { destruct (run_stateless (r_eff r) (r_party r) (acting r w k cl) w k c S) as [b ->]. apply reach_ok_mk. }
+    pose proof (sound_gate r w k cl Hr A) as G.
+    rewrite (sound_acting r w k cl Hr S). fold a. fold a in G.
+    destruct (r_eff r) eqn:E; cbn [stateless] in S; try discriminate S; cbn [run]; fold a.
+    + apply reach_ok_quiet; reflexivity.
+    + destruct (k_obj c) as [i|]; [|apply reach_ok_mk].
+      destruct (find_map i (w_maps w)) as [m|]; [|apply reach_ok_mk].
+      destruct (map_party_ok (r_party r) a m); [|apply reach_ok_mk]. apply reach_ok_quiet; reflexivity.
+    + destruct (k_obj c) as [i|]; [|apply reach_ok_mk].
+      destruct (find_map i (w_maps w)) as [m|]; [|apply reach_ok_mk].
+      destruct (map_party_ok (r_party r) a m); [|apply reach_ok_mk]. apply reach_ok_quiet; reflexivity.
+    + destruct (k_valid c); [|apply reach_ok_mk]. apply reach_ok_quiet; reflexivity.
+    + apply reach_ok_quiet; reflexivity.
+    + destruct (k_obj c) as [i|]; [|apply reach_ok_mk].
+      destruct (negb (k_valid c)); [apply reach_ok_mk|].
+      destruct (find_code i (w_codes w)) as [x|]; [|apply reach_ok_mk].
+      destruct (negb (c_act x =? 0)); [apply reach_ok_mk|]. apply reach_ok_quiet; reflexivity.
+    + apply reach_ok_quiet; reflexivity.
+    + destruct (k_obj c) as [i|]; [|apply reach_ok_mk].
+      destruct (find_map i (w_maps w)) as [m|]; [|apply reach_ok_mk].
+      destruct (map_party_ok (r_party r) a m); [|apply reach_ok_mk]. apply reach_ok_quiet; reflexivity.
+    + (* ESocksOpen *)
+      destruct G as [Hp Ha]. rewrite Hp.
+      destruct (k_obj c) as [i|]; [|apply reach_ok_mk].
+      destruct (find_map i (w_maps w)) as [m|] eqn:Fm; [|apply reach_ok_mk].
+      destruct (map_party_ok PMapListen a m) eqn:P; [|apply reach_ok_mk].
+      destruct (memN (m_target m) (w_online w)); [|apply reach_ok_mk].
+      cbn [map_party_ok] in P. apply N.eqb_eq in P. destruct (find_map_some _ _ _ Fm) as [Hin _].
+      unfold reach_ok; cbn. split; [|intros; contradiction].
+      intros t ty s Hd. apply deliver_in in Hd. destruct Hd as [Heq Hne]. injection Heq as -> -> ->.
+      split; [exact Ha|]. split; [exact Hne|]. right. exists m. auto.
+    + (* EDnsForward *)
+      destruct G as [Hp Ha]. rewrite Hp.
+      match goal with |- context [if negb (?t =? 0) && _ then _ else _] => set (tt := t) end.
+      destruct (negb (tt =? 0) && memN tt (w_online w)) eqn:Eg; [|apply reach_ok_mk].
+      apply andb_prop in Eg. destruct Eg as [Ent _]. apply negb_true_iff in Ent. apply N.eqb_neq in Ent.
+      unfold reach_ok; cbn. split; [|intros; contradiction].
+      intros t ty s Hd. apply deliver_in in Hd. destruct Hd as [Heq Hne]. injection Heq as -> -> ->.
+      split; [exact Ha|]. split; [exact Hne|]. right.
+      subst tt. destruct (k_tgt c) as [t0|].
+      * destruct (reaches a t0 (w_maps w)) eqn:Er; [|contradiction Ent; reflexivity]. now apply reaches_exists.
+      * destruct (a =? 0); [contradiction Ent; reflexivity|].
+        unfold default_target in *.
+        destruct (find (fun m => m_socks m && ((m_listen m =? a) || (m_target m =? a)) && negb (m_target m =? 0)) (w_maps w)) as [m|] eqn:Ff;
+          [|contradiction Ent; reflexivity].
+        apply find_some in Ff. destruct Ff as [Hin Hm].
+        apply andb_prop in Hm. destruct Hm as [Hm _]. apply andb_prop in Hm. destruct Hm as [_ Hm].
+        apply orb_prop in Hm. destruct Hm as [Hm|Hm]; apply N.eqb_eq in Hm.
+        -- exists m. auto.
+        -- exfalso. apply Hne. exact Hm.
+    + (* ENotify *)
+      destruct (k_tgt c) as [t|]; [|apply reach_ok_mk].
+      match goal with |- context [if ?b then _ else _] => destruct b end; [apply reach_ok_mk|].
+      unfold reach_ok; cbn. split; [|intros; contradiction].
+      intros t' ty s Hd. apply deliver_in in Hd. destruct Hd as [Heq Hne]. injection Heq as -> -> ->.
+      split; [exact G|]. split; [exact Hne|]. left. split; reflexivity.
+    + destruct (k_valid c); [|apply reach_ok_mk]. apply reach_ok_quiet; reflexivity.
+    + destruct (k_obj c) as [i|]; [|apply reach_ok_mk].
+      destruct (find_dom i (w_doms w)) as [d|]; [|apply reach_ok_mk].
+      destruct (d_owner d =? a); [|apply reach_ok_mk]. apply reach_ok_quiet; reflexivity.
+    + apply reach_ok_quiet; reflexivity.
+    + (* EDisconnect *)
+      unfold reach_ok; cbn. split; [intros; contradiction|].
+      intros x Hin Hnot. exact (remove_cid_lost _ _ _ Hin Hnot).
+Qed.
+
+Lemma reach_only :
+  forall w k cl c, reach_ok (conn_identity w k) w (exec current_table w k cl c).
+Proof. exact (reach_only_gen current_table current_table_sound). Qed.
+
+Lemma reach_only_notify :
+  forall w k cl c, reach_ok (conn_identity w k) w (exec (current_table ++ [aux_row_current]) w k cl c).
+Proof. exact (reach_only_gen _ current_table_with_notify_sound). Qed.
+
+(* ------------------------------------------------------------------------------------------ *)
+(* unhandled bytes: nothing happens; the table has exactly the listed command bytes           *)
+(* ------------------------------------------------------------------------------------------ *)
+Definition handled_bytes : list N := [11; 50; 70; 71; 72; 74; 75; 76; 81; 82; 83; 84; 85; 86; 87; 90; 110; 120; 121].
+
+Lemma find_row_handled tbl t b r : find_row tbl t b = Some r -> In t (map r_cmd tbl).
+Proof.
+  induction tbl as [|x tbl IH]; cbn [find_row map In]; intro H; [discriminate|].
+  destruct ((r_cmd x =? t) && resp_matches (r_resp x) b) eqn:E.
+  - apply andb_prop in E. destruct E as [E _]. apply N.eqb_eq in E. now left.
+  - right. now apply IH.
+Qed.
+
+Lemma unhandled_inert :
+  forall w k cl c, ~ In (k_type c) handled_bytes -> exec current_table w k cl c = mk false w.
+Proof.
+  intros w k cl c H. unfold exec.
+  destruct (find_row current_table (k_type c) (k_resp c)) as [r|] eqn:F; [|reflexivity].
+  exfalso. apply H. apply find_row_handled in F.
+  assert (Hs : forall x, In x (map r_cmd current_table) -> In x handled_bytes).
+  { intros x Hx. vm_compute in Hx. vm_compute. tauto. }
+  now apply Hs.
+Qed.
+
+(* ------------------------------------------------------------------------------------------ *)
+(* the code as found: witnesses against each unrepaired row                                   *)
+(* ------------------------------------------------------------------------------------------ *)
+(* HandleTrafficReport: a report on a connection the server has never seen moves mapping #0's counters *)
+Lemma pinned_traffic_refuted :
+  exists w k cl c, conn_identity w k = 0 /\ wf_world w /\ res_world (exec pinned_table w k cl c) <> w.
+Proof.
+  exists w_demo, KUnknown, 0, (c_demo 110 (Some 0) None).
+  split; [reflexivity|]. split; [|vm_compute; discriminate].
+  split; [cbn; intros [H|[H|[H|[]]]]; discriminate H|].
+  intros d [<-|[]]. cbn. discriminate.
+Qed.
+
+(* HandleDNSResolveRequest / HandleDNSQueryRequest: an unknown connection reaches client 2 *)
+Lemma pinned_dns_refuted :
+  exists w k cl c, conn_identity w k = 0 /\ res_deliv (exec pinned_table w k cl c) <> [].
+Proof. exists w_demo, KUnknown, 0, (c_demo 120 None (Some 2)). split; [reflexivity|vm_compute; discriminate]. Qed.
+
+Lemma pinned_dns_stranger_refuted :
+  exists w k cl c, conn_identity w k = 3 /\ ~ reach_ok 3 w (exec pinned_table w k cl c).
+Proof.
+  exists w_demo, (KAuth 3), 0, (c_demo 121 None (Some 2)). split; [reflexivity|].
+  intros [H _]. specialize (H 2 121 0). vm_compute in H.
+  destruct (H (or_introl eq_refl)) as [_ [_ [[E _]|[m [Hin [Hl _]]]]]]; [discriminate E|].
+  destruct Hin as [<-|[<-|[]]]; discriminate Hl.
+Qed.
+
+(* HandleSOCKS5TunnelRequest: identity 0 passes `sourceClientID != mapping.ListenClientID` on a mapping with listen client 0 *)
+Lemma pinned_socks_zero_listen_refuted :
+  exists w k cl c, conn_identity w k = 0 /\ res_deliv (exec pinned_table w k cl c) <> [].
+Proof. exists w_demo, KFresh, 0, (c_demo 90 (Some 1) None). split; [reflexivity|vm_compute; discriminate]. Qed.
+
+(* SendNotifyToClientHandler: a handshake-pending connection notifies client 2, stamped with sender 0 *)
+Lemma pinned_notify_refuted :
+  exists w k cl c, conn_identity w k = 0 /\ res_deliv (exec (pinned_table ++ [aux_row_pinned]) w k cl c) = [(2, C_NotifyClient, 0)].
+Proof. exists w_demo, KPending, 0, (c_demo 102 None (Some 2)). split; [reflexivity|vm_compute; reflexivity]. Qed.
+
+(* ------------------------------------------------------------------------------------------ *)
+(* non-vacuity: the hypotheses are met by a non-trivial world, and parties do get things done *)
+(* ------------------------------------------------------------------------------------------ *)
+Lemma demo_world_wf : wf_world w_demo.
+Proof.
+  split; [cbn; intros [H|[H|[H|[]]]]; discriminate H|].
+  intros d [<-|[]]. cbn. discriminate.
+Qed.
+
+Lemma premises_satisfiable :
+  wf_world w_demo /\ sound_table current_table = true
+  /\ conn_identity w_demo (KAuth 1) = 1 /\ conn_identity w_demo KPending = 0
+  (* the listen client deletes its mapping, reports traffic, opens a SOCKS tunnel to its target, resolves through it *)
+  /\ w_maps (res_world (exec current_table w_demo (KAuth 1) 0 (c_demo 76 (Some 0) None))) = tl (w_maps w_demo)
+  /\ map m_sent (w_maps (res_world (exec current_table w_demo (KAuth 2) 0 (c_demo 110 (Some 0) None)))) = [1000000; 0]
+  /\ res_deliv (exec current_table w_demo (KAuth 1) 0 (c_demo 90 (Some 0) None)) = [(2, 35, 0)]
+  /\ res_deliv (exec current_table w_demo (KAuth 1) 0 (c_demo 120 None (Some 2))) = [(2, 120, 0)]
+  /\ res_deliv (exec current_table w_demo (KAuth 1) 0 (c_demo 121 None None)) = [(2, 121, 0)]
+  (* the stranger (client 3) and the unauthenticated get nothing *)
+  /\ exec current_table w_demo (KAuth 3) 1 (c_demo 76 (Some 0) None) = mk false w_demo
+  /\ exec current_table w_demo (KAuth 3) 1 (c_demo 110 (Some 0) None) = mk false w_demo
+  /\ exec current_table w_demo (KAuth 3) 1 (c_demo 120 None (Some 2)) = mk true w_demo
+  /\ exec current_table w_demo KUnknown 1 (c_demo 90 (Some 1) None) = mk false w_demo.
+Proof.
+  split; [exact demo_world_wf|]. split; [exact current_table_sound|]. repeat split; vm_compute; reflexivity.
+Qed.
